@@ -86,21 +86,24 @@ func famTruncation(x *lc) {
 	if hi > len(offs) {
 		hi = len(offs)
 	}
-	errs := 0
+	var jobs []job
 	for _, L := range offs[lo:hi] {
-		recv := freshLike(x.o.obj)
-		_, o := x.decodeFault(d, recv, ref[:L:L])
+		jobs = append(jobs, job{Seed: x.seed, Entry: x.e.name, Vi: x.vi, Op: "decode", Decoder: d.name, Cut: L})
+	}
+	errs := 0
+	for i, r := range runJobs(jobs) {
+		L := offs[lo+i]
+		what := fmt.Sprintf("%s of the first %d of %d bytes", d.name, L, len(ref))
 		switch {
-		case o.panicked != nil:
-			x.failPanic("truncation", o, fmt.Sprintf("%s of the first %d of %d bytes", d.name, L, len(ref)))
-		case o.err == nil:
-			x.c.Fail(sig("truncation", x.e.name+"."+d.method, "silent-success"), "%s [%s]: %s of the first %d of %d bytes returned no error",
-				x.e.name, x.e.vals[x.vi].label, d.name, L, len(ref))
+		case r.Fatal != "" || r.Panic != "":
+			x.failResult("truncation", r, what)
+		case r.Err == "":
+			x.c.Fail(sig("truncation", x.e.name+"."+d.method, "silent-success"), "%s [%s]: %s returned no error", x.e.name, x.e.vals[x.vi].label, what)
 		default:
 			errs++
 		}
-		if o.alloc > allocLimit(len(ref)) {
-			x.c.Fail(sig("truncation", x.e.name+"."+d.method, "unbounded-alloc"), "%s: %s of %d bytes allocated %d bytes", x.e.name, d.name, L, o.alloc)
+		if r.Alloc > allocLimit(len(ref)) {
+			x.c.Fail(sig("truncation", x.e.name+"."+d.method, "unbounded-alloc"), "%s: %s allocated %d bytes", x.e.name, what, r.Alloc)
 		}
 	}
 	x.c.Count(hi - lo)
@@ -248,6 +251,10 @@ func getField(data []byte, f field) uint64 {
 	return uint64(binary.LittleEndian.Uint32(data[f.off:]))
 }
 
+func (x *lc) corruptJob(d decoder, off int, patch []byte, check bool) job {
+	return job{Seed: x.seed, Entry: x.e.name, Vi: x.vi, Op: "decode", Decoder: d.name, Cut: -1, Off: off, Patch: patch, Check: check}
+}
+
 func (x *lc) dangers(d decoder, ref []byte) []danger {
 	key := fmt.Sprintf("%s\x00%d\x00%s", x.e.name, x.vi, d.name)
 	dangerMu.Lock()
@@ -258,6 +265,11 @@ func (x *lc) dangers(d decoder, ref []byte) []danger {
 	var r []danger
 	if !isJSONText(ref) {
 		confirmed := false
+		enc := func(f field, v uint64) []byte {
+			b := make([]byte, f.width)
+			putField(b, field{0, f.width}, v)
+			return b
+		}
 		for o := 0; o < len(ref); o++ {
 			for _, w := range []int{8, 4} {
 				if o+w > len(ref) {
@@ -272,29 +284,31 @@ func (x *lc) dangers(d decoder, ref []byte) []danger {
 				if tooDangerous(r, data, o, o+w) {
 					continue // overlaps a length already found: this write would set that one to >= 2^20
 				}
-				_, out := x.decodeFault(d, freshLike(x.o.obj), data)
-				if out.alloc < probeLen || out.alloc <= 16*uint64(len(ref))+1<<16 {
+				out := runJob(x.corruptJob(d, o, enc(f, probeLen), false))
+				if out.Fatal != "" || out.Alloc < probeLen || out.Alloc <= 16*uint64(len(ref))+1<<16 {
 					continue
 				}
-				dz := danger{field: f, alloc: out.alloc}
+				dz := danger{field: f, alloc: out.Alloc}
 				if w == 8 {
-					putField(data, f, 1<<63)
-					if _, o2 := x.decodeFault(d, freshLike(x.o.obj), data); o2.panicked != nil {
-						dz.site = o2.site
+					if o2 := runJob(x.corruptJob(d, o, enc(f, 1<<63), false)); o2.Panic != "" {
+						dz.site = o2.Site
 					}
 				}
 				if !confirmed {
 					confirmed = true
 					// smallest power of two whose extrapolated allocation exceeds the limit
 					v := uint64(probeLen)
-					for float64(v)*float64(out.alloc)/probeLen <= float64(allocLimit(len(ref))) {
+					for float64(v)*float64(out.Alloc)/probeLen <= float64(allocLimit(len(ref))) {
 						v <<= 1
 					}
-					putField(data, f, v)
-					_, o3 := x.decodeFault(d, freshLike(x.o.obj), data)
-					dz.confirmed = fmt.Sprintf("confirmed: with the field set to 2^%d the decoder allocated %d MiB (err=%v)", bits.Len64(v)-1, o3.alloc>>20, o3.err)
-					if o3.alloc <= allocLimit(len(ref)) {
-						dz.confirmed = fmt.Sprintf("NOT confirmed: with the field set to 2^%d the decoder allocated only %d MiB", bits.Len64(v)-1, o3.alloc>>20)
+					o3 := runJob(x.corruptJob(d, o, enc(f, v), false))
+					switch {
+					case o3.Fatal != "":
+						dz.confirmed = fmt.Sprintf("confirmed: with the field set to 2^%d the process was killed (fatal error: %s)", bits.Len64(v)-1, o3.Fatal)
+					case o3.Alloc > allocLimit(len(ref)):
+						dz.confirmed = fmt.Sprintf("confirmed: with the field set to 2^%d the decoder allocated %d MiB before returning err=%q", bits.Len64(v)-1, o3.Alloc>>20, o3.Err)
+					default:
+						dz.confirmed = fmt.Sprintf("NOT confirmed: with the field set to 2^%d the decoder allocated only %d MiB", bits.Len64(v)-1, o3.Alloc>>20)
 					}
 				}
 				r = append(r, dz)
@@ -344,7 +358,9 @@ func famCorruption(x *lc) {
 	}
 	dz := x.dangers(d, ref)
 	subj := x.e.name + "." + d.method
-	evals, rejected, accepted, skipped := 0, 0, 0, 0
+	rejected, accepted, skipped := 0, 0, 0
+	var jobs []job
+	var whats []string
 	for _, f := range fs[b*perLeaf : hi] {
 		x.c.Cover("corrupt-width", fmt.Sprint(f.width))
 		w := f.width
@@ -372,53 +388,33 @@ func famCorruption(x *lc) {
 				skipped++
 				continue
 			}
-			recv := freshLike(x.o.obj)
-			n, o := x.decodeFault(d, recv, data)
-			evals++
-			what := fmt.Sprintf("%s with the %d-byte field at offset %d set to %x", d.name, w, f.off, val)
-			if o.panicked != nil {
-				x.failPanic("corruption", o, what)
-				continue
-			}
-			if o.alloc > allocLimit(len(ref)) {
-				x.c.Fail(sig("corruption", subj, "unbounded-alloc"), "%s [%s]: %s allocated %d MiB for an input of %d bytes (err=%v)",
-					x.e.name, x.e.vals[x.vi].label, what, o.alloc>>20, len(ref), o.err)
-				continue
-			}
-			if o.err != nil {
-				rejected++
-				continue
-			}
-			accepted++
-			if d.hasN && n > int64(len(data)) {
-				x.c.Fail(sig("corruption", subj, "count-beyond-input"), "%s: returned n=%d for %d bytes", what, n, len(data))
-			}
-			// accepted: must be a valid object, i.e. one that marshals and whose encoding is stable
-			b1, o1, ok := encodeFor(d, apiOf(recv))
-			if !ok {
-				if o1.panicked != nil {
-					x.c.Fail(sig("corruption", subj, "accepted-invalid:remarshal-panics@"+o1.site), "%s [%s]: %s was accepted without error, but marshalling the resulting object panics in %s: %s",
-						x.e.name, x.e.vals[x.vi].label, what, o1.site, o1.panicMsg())
-				} else {
-					x.c.Fail(sig("corruption", subj, "accepted-invalid:remarshal-fails"), "%s [%s]: %s was accepted without error, but the resulting object cannot be marshalled: %v",
-						x.e.name, x.e.vals[x.vi].label, what, o1.err)
-				}
-				continue
-			}
-			recv2 := freshLike(x.o.obj)
-			_, o2 := x.decodeFault(d, recv2, b1)
-			if o2.err != nil || o2.panicked != nil {
-				x.c.Fail(sig("corruption", subj, "accepted-invalid:unstable"), "%s [%s]: %s was accepted, but the re-marshalled object does not decode (err=%v panic=%v)",
-					x.e.name, x.e.vals[x.vi].label, what, o2.err, o2.panicked)
-				continue
-			}
-			if b2, _, ok := encodeFor(d, apiOf(recv2)); !ok || !bytes.Equal(b1, b2) {
-				x.c.Fail(sig("corruption", subj, "accepted-invalid:unstable"), "%s [%s]: %s was accepted, but the resulting object does not re-marshal consistently: %s",
-					x.e.name, x.e.vals[x.vi].label, what, firstDiffAt(b1, b2))
-			}
+			jobs = append(jobs, x.corruptJob(d, f.off, val, true))
+			whats = append(whats, fmt.Sprintf("%s with the %d-byte field at offset %d set to %x", d.name, w, f.off, val))
 		}
 	}
-	x.c.Count(evals)
+	for i, r := range runJobs(jobs) {
+		what := whats[i]
+		switch {
+		case r.Fatal != "" || r.Panic != "":
+			x.failResult("corruption", r, what)
+			continue
+		case r.Alloc > allocLimit(len(ref)):
+			x.c.Fail(sig("corruption", subj, "unbounded-alloc"), "%s [%s]: %s allocated %d MiB for an input of %d bytes (err=%q)",
+				x.e.name, x.e.vals[x.vi].label, what, r.Alloc>>20, len(ref), r.Err)
+			continue
+		case r.Err != "":
+			rejected++
+			continue
+		}
+		accepted++
+		if d.hasN && r.N > int64(len(ref)) {
+			x.c.Fail(sig("corruption", subj, "count-beyond-input"), "%s: returned n=%d for %d bytes", what, r.N, len(ref))
+		}
+		if r.Invalid != "" {
+			x.c.Fail(sig("corruption", subj, "accepted-invalid:"+r.Invalid), "%s [%s]: %s was accepted without error, but %s", x.e.name, x.e.vals[x.vi].label, what, r.InvalidMsg)
+		}
+	}
+	x.c.Count(len(jobs))
 	if rejected > 0 {
 		x.c.Cover("corrupt-result", "rejected-with-error")
 	}
